@@ -105,6 +105,19 @@ Fixpoint strip_trailing_slash (s : bytes) : bool * bytes :=
 
 Definition is_empty (s : bytes) : bool := match s with [] => true | _ => false end.
 Definition star2 : bytes := [c_star; c_star].
+(* two stars in a row *)
+Fixpoint has_star2 (s : bytes) : bool :=
+  match s with
+  | a :: r => match r with
+              | b :: _ => (N.eqb a c_star && N.eqb b c_star) || has_star2 r
+              | [] => false
+              end
+  | [] => false
+  end.
+(* `**` glued to other characters of a component (`a**`, `**b`): wildmatch reads it as `*`, but the
+   literal-prefix shortcut of dir.c match_pathname can turn what is left of `a**/d` into `**/d`;
+   outside the grammar *)
+Definition bad_piece (s : bytes) : bool := has_star2 s && negb (bytes_eqb s star2).
 
 Definition parse_line (l : bytes) : pline :=
   match l with
@@ -121,9 +134,10 @@ Definition parse_line (l : bytes) : pline :=
         let body := if starts_with c_slash l2 then tl l2 else l2 in
         if anch then
           let pieces := split_slash body in
-          if existsb is_empty pieces then LUnsup
+          if existsb is_empty pieces || existsb bad_piece pieces then LUnsup
           else LPat {| g_neg := neg; g_dir := dir; g_anch := true;
                        g_segs := map (fun s => if bytes_eqb s star2 then GSS else GSG s) pieces |}
+        else if bad_piece body then LUnsup
         else LPat {| g_neg := neg; g_dir := dir; g_anch := false; g_segs := [GSG body] |}
   end.
 
@@ -413,7 +427,7 @@ End Edit.
 (* ---- names and commands the theorems speak about ------------------------------------------------ *)
 (* a component that xvc can write as `/name` and Git reads back as the literal name *)
 Definition plain_name (n : gname) : bool :=
-  negb (is_empty n) && forallb ok_byte n && negb (existsb (N.eqb c_slash) n) && negb (bytes_eqb n star2).
+  negb (is_empty n) && forallb ok_byte n && negb (existsb (N.eqb c_slash) n) && negb (has_star2 n).
 Definition plain_path (p : gpath) : bool := negb (match p with [] => true | _ => false end) && forallb plain_name p.
 
 Definition op_path (o : iop) : gpath := match o with IgnDir d => d | IgnFile f => f end.
